@@ -172,9 +172,23 @@ def red_act(world, a):
 
 
 def index(edges, world="holder"):
-    ix = {}
+    """(reduced pre-state, base action) -> edges; each edge gets its reduced post-state / action precomputed (_ct, _ca)"""
+    ix, memo = {}, {}
+
+    def cs(st):
+        k = id(st)
+        if k not in memo:
+            memo[k] = vf.canon(red(world, st))
+        return memo[k]
+    # TLC prints every state many times: share one canonical string per distinct state
+    uniq = {}
     for e in edges:
-        ix.setdefault((vf.canon(red(world, e["s"])), vf.canon(base_act(e["a"]))), []).append(e)
+        ks = vf.canon(e["s"])
+        kt = vf.canon(e["t"])
+        s0 = uniq.setdefault(ks, e["s"])
+        t0 = uniq.setdefault(kt, e["t"])
+        e2 = {"s": s0, "a": e["a"], "t": t0, "_ct": cs(t0), "_ca": vf.canon(red_act(world, e["a"]))}
+        ix.setdefault((cs(s0), vf.canon(base_act(e["a"]))), []).append(e2)
     return ix
 
 
@@ -299,21 +313,25 @@ def first_dev(doc, other_ix, world):
     """per path of `doc`: (index of the first step that is not an edge of the other relation - as far as the binding
     `world` can tell -, dev labels of the other relation's edges there, the action)"""
     out = {}
+    cst = [None] * len(doc["states"])
+
+    def cs(i):
+        if cst[i] is None:
+            cst[i] = vf.canon(red(world, doc["states"][i]))
+        return cst[i]
     for pi, p in enumerate(doc["paths"]):
-        s = doc["states"][p["init"]]
+        si0 = p["init"]
         for si, st in enumerate(p["steps"]):
-            t = doc["states"][st["t"]]
-            cands = other_ix.get((vf.canon(red(world, s)), vf.canon(base_act(st["a"]))), [])
+            cands = other_ix.get((cs(si0), vf.canon(base_act(st["a"]))), [])
             a0 = vf.canon(red_act(world, st["a"]))
-            rt = vf.canon(red(world, t))
-            same = [e for e in cands if vf.canon(red(world, e["t"])) == rt and vf.canon(red_act(world, e["a"])) == a0]
-            if not same:
+            rt = cs(st["t"])
+            if not any(e["_ct"] == rt and e["_ca"] == a0 for e in cands):
                 devs = set(st["a"].get("dev", []))
                 for e in cands:
                     devs |= set(e["a"].get("dev", []))
                 out[pi] = (si, sorted(devs), st["a"])
                 break
-            s = t
+            si0 = st["t"]
     return out
 
 
